@@ -498,7 +498,14 @@ def binop(E, op, a, b, inplace=False):
         raise Unsupported("sequence op %s" % op.__name__)
     if isinstance(a, (list, tuple)) and isinstance(b, (list, tuple)) and op is ast.Add:
         return a + b
-    if isinstance(a, float) or isinstance(b, float):
+    if isinstance(a, SFlt) or isinstance(b, SFlt) or isinstance(a, float) or isinstance(b, float):
+        # integer-term times float constant (nanosecond conversions); anything else is outside the model
+        if op is ast.Mult and isinstance(a, (SInt, SFlt)) and isinstance(b, float):
+            return SFlt(a.t, (a.scale if isinstance(a, SFlt) else 1.0) * b)
+        if op is ast.Mult and isinstance(b, (SInt, SFlt)) and isinstance(a, float):
+            return SFlt(b.t, (b.scale if isinstance(b, SFlt) else 1.0) * a)
+        if op in (ast.FloorDiv, ast.Div) and isinstance(a, SFlt) and isinstance(b, float) and b != 0:
+            return SFlt(a.t, a.scale / b)
         raise Unsupported("float arithmetic with symbolic operand")
     x = E.as_int(a)
     y = E.as_int(b)
@@ -558,7 +565,7 @@ def format_str(E, fmt, arg):
                 E.raise_(TypeError, "%%%s format: a number is required" % c, implicit="format")
             if isinstance(a, enum.Enum):
                 E.raise_(TypeError, "%%%s format: a number is required" % c, implicit="format")
-            if is_sym(a):
+            if is_sym(a) or isinstance(a, SFlt):
                 concrete = False
             parts.append(a)
         elif c == "c":
@@ -1400,6 +1407,18 @@ def m_filter(E, f, it):
 @register(print)
 def m_print(E, *a, **k):
     return None
+
+
+@register(getattr)
+def m_getattr(E, o, n, *default):
+    if not isinstance(n, str):
+        raise Unsupported("getattr with symbolic name")
+    try:
+        return E.getattr(o, n)
+    except PyRaise as e:
+        if default and issubclass(e.exc.cls, AttributeError):
+            return default[0]
+        raise
 
 
 @register(hasattr)
